@@ -10,6 +10,7 @@ Cex(name, ok) == ok \/ (IF TLCGet(1) < 40 THEN TLCSet(1, TLCGet(1) + 1) /\ Print
 InvConvergedButSessions == Cex("ConvergedButSessions", ConvergedButSessions)
 InvConvergedSessions    == Cex("ConvergedSessions", ConvergedSessions)
 InvUniqueLive           == Cex("UniqueLive", UniqueLive)
+InvNoDroppedDeletion    == Cex("NoDroppedDeletion", NoDroppedDeletion)
 \* export of complete behaviours (used with -simulate): prints when the budget is exhausted
 Export == (nrepl = MaxRepl /\ nwrites = MaxWrites) => PrintT(<<"BEH", ToJson(hist)>>)
 \* transition coverage: the first few histories (per worker) that end in an exchange taking each arm of the
